@@ -157,7 +157,8 @@ class History:
         return new, refs
 
     # -- brute force over the construction record ------------------------------------------------
-    def closure(self, tips):
+    def closure(self, tips, shallow=()):
+        """Everything reachable from tips; the parents of commits in ``shallow`` are not followed."""
         seen = set()
         todo = list(tips)
         while todo:
@@ -165,7 +166,8 @@ class History:
             if i in seen:
                 continue
             seen.add(i)
-            todo.extend(self.objs[i][1])
+            kids = self.objs[i][1]
+            todo.extend(kids[:1] if i in shallow else kids)
         return seen
 
     def parents_of(self, cid):
@@ -199,8 +201,8 @@ def spec_strategy():
 
     @st.composite
     def spec(draw):
-        n = draw(st.integers(3, 12))
-        shape = draw(st.sampled_from(["free", "free", "octopus", "octopus", "crisscross", "multiroot", "linear"]))
+        n = draw(st.integers(4, 14))
+        shape = draw(st.sampled_from(["free", "free", "octopus", "octopus", "octopus", "crisscross", "multiroot", "linear"]))
         tmode = draw(st.sampled_from(["mono", "mono", "equal", "reversed", "random"]))
         commits = []
         for i in range(n):
@@ -227,7 +229,7 @@ def spec_strategy():
                 t = draw(st.integers(0, 60))
             commits.append([parents, t, draw(st.integers(0, 55)), draw(st.integers(0, NBRANCH - 1))])
         if shape == "octopus" and n >= 4:
-            i = draw(st.integers(3, n - 1))
+            i = draw(st.integers(3, min(n - 1, 6)))  # early enough to be materialised by most scripts
             k = draw(st.integers(3, min(5, i)))
             commits[i][0] = draw(st.lists(st.sampled_from(list(range(i))), min_size=k, max_size=k, unique=True))
         if shape == "crisscross" and n >= 6:
@@ -251,33 +253,60 @@ def spec_strategy():
 
 
 def script_strategy():
+    """[initial history] + layout ops + 1-3 accelerator writes + 0-3 changes (staleness) + 0-2 writes + 0-2 changes.
+
+    Built in phases so that, by construction, accelerators exist and are frequently followed by further history,
+    new packs, repacks, pruning and ref changes.
+    """
     from hypothesis import strategies as st
 
-    adv = st.tuples(st.just("advance"), st.integers(1, 3))
-    fetch = st.tuples(st.just("fetchpack"), st.integers(1, 3))
-    op = st.one_of(
-        adv, adv, fetch, fetch,
-        st.just(("pack_loose",)), st.just(("pack_loose",)),
-        st.just(("repack",)),
-        st.just(("prune",)),
-        st.just(("gc",)),
-        st.tuples(st.just("git_repack"), st.booleans()),
-        st.tuples(st.just("delref"), st.integers(1, NBRANCH - 1)),
+    adv = st.tuples(st.just("advance"), st.integers(1, 4))
+    fetch = st.tuples(st.just("fetchpack"), st.integers(1, 4))
+    one = lambda x: x.map(lambda o: [o])
+    layout = st.one_of(
+        one(st.just(("pack_loose",))), one(fetch), one(adv),
+        one(st.tuples(st.just("git_repack"), st.booleans())), one(st.just(("repack",))),
+        # two or three packs by construction (what a multi-pack-index is for)
+        fetch.map(lambda f: [("pack_loose",), f]), fetch.map(lambda f: [("pack_loose",), f]),
+        st.tuples(fetch, fetch).map(lambda t: [("pack_loose",), t[0], t[1]]),
+        st.tuples(fetch, adv).map(lambda t: [t[0], t[1], ("pack_loose",)]),
+    )
+    acc = st.one_of(
         st.tuples(st.just("cg"), st.sampled_from(["dulwich", "dulwich", "dulwich-all", "dulwich-tips", "git", "git", "git-bloom"])),
         st.tuples(st.just("cg"), st.sampled_from(["dulwich", "git"])),
         st.tuples(st.just("midx"), st.sampled_from(["dulwich", "dulwich", "git", "git-bitmap"])),
         st.tuples(st.just("midx"), st.sampled_from(["dulwich", "git"])),
         st.just(("bitmap",)), st.just(("bitmap",)),
-        st.tuples(st.just("pack_refs"), st.sampled_from(["dulwich", "dulwich-tags", "git"])),
+        st.tuples(st.just("git_repack"), st.just(True)),
+        st.tuples(st.just("pack_refs"), st.sampled_from(["dulwich", "dulwich-tags", "git", "git"])),
+        st.tuples(st.just("pack_refs"), st.sampled_from(["dulwich", "git"])),
         st.tuples(st.just("foreign"), st.sampled_from(["cg", "midx", "bitmap"])),
         st.just(("swapbitmap",)),
+    )
+    change = st.one_of(
+        adv, adv, fetch, fetch,
+        st.just(("pack_loose",)),
+        st.just(("repack",)),
+        st.just(("prune",)),
+        st.just(("gc",)),
+        st.tuples(st.just("git_repack"), st.booleans()),
+        st.tuples(st.just("delref"), st.integers(1, NBRANCH - 1), st.sampled_from(["dulwich", "git"])),
+        st.tuples(st.just("delref"), st.integers(1, NBRANCH - 1), st.sampled_from(["dulwich", "git"])),
+        st.tuples(st.just("moveref"), st.integers(0, NBRANCH - 1), st.sampled_from(["dulwich", "git"])),
+        # refs re-packed by another process while the long-lived instance holds its cache
+        st.tuples(st.just("pack_refs"), st.sampled_from(["git", "git", "dulwich"])),
         st.just(("reopen",)),
         st.just(("query",)), st.just(("query",)),
-        st.tuples(st.just("shallow"), st.integers(0, 11)),
+        st.tuples(st.just("shallow"), st.integers(0, 13)),
     )
-    return st.tuples(st.integers(1, 4), st.lists(op, min_size=3, max_size=9)).map(
-        lambda t: [("advance", t[0])] + [tuple(o) for o in t[1]]
-    )
+    return st.tuples(
+        st.integers(2, 6),
+        st.lists(layout, min_size=0, max_size=2).map(lambda ls: [o for l in ls for o in l]),
+        st.lists(acc, min_size=1, max_size=3),
+        st.lists(change, min_size=0, max_size=3),
+        st.lists(acc, min_size=0, max_size=2),
+        st.lists(change, min_size=0, max_size=2),
+    ).map(lambda t: [("advance", t[0])] + [tuple(o) for part in t[1:] for o in part])
 
 
 def case_strategy():
